@@ -31,7 +31,7 @@ m = dict(
     engines=[
         dict(name='rapidcheck', path='/usr/include/rapidcheck.h', serves_properties=[c['property_id'] for c in checks],
              kind_free_text='property-based testing library (generators, shrinking); harnesses under harness/*.cpp'),
-        dict(name='libFuzzer', path='clang -fsanitize=fuzzer', serves_properties=[p for p in ('C09', 'C10', 'C14') if any(c['property_id'] == p for c in checks)],
+        dict(name='libFuzzer', path='clang -fsanitize=fuzzer', serves_properties=[p for p in ('C08', 'C09', 'C10', 'C14') if any(c['property_id'] == p for c in checks)],
              kind_free_text='coverage-guided fuzzing of API call histories'),
     ],
     checks=checks,
